@@ -318,6 +318,8 @@ pub fn provenance(params: &Params, script: &[Call], lg: &Log) -> Provenance {
         }
     }
     let mut fpos: u64 = 0;
+    // next expected position in the seeded stream (used only for samplers that draw nothing)
+    let mut strack: usize = 0;
     for e in &lg.events {
         let has_bias = params.kind != PlannerKind::Prm
             && matches!(script.get(e.call), Some(Call::Solve(_)))
@@ -330,6 +332,10 @@ pub fn provenance(params: &Params, script: &[Call], lg: &Log) -> Provenance {
                     seeded_at = Some(p);
                 }
             }
+        } else if params.seed.is_some() && strack + 1 < stream.len() {
+            // a sampler that consumed no randomness cannot be located in the stream: it is placed where a
+            // seeded planner would have called it (right after the bias draw, if any)
+            seeded_at = Some(strack + has_bias as usize);
         }
         let is_goal = matches!(e.kind, SKind::Goal(_));
         let (g, pos) = match seeded_at {
@@ -338,6 +344,7 @@ pub fn provenance(params: &Params, script: &[Call], lg: &Log) -> Provenance {
                 if has_bias && p >= 1 {
                     pv.u64s.push((0, (p - 1) as u64, stream[p - 1]));
                 }
+                strack = p + n;
                 (0u8, p as u64)
             }
             None => {
@@ -474,7 +481,19 @@ pub fn coq_case<S>(
         e.n(*c);
     }
     e.n(script.len() as u64);
-    for c in script {
+    for (ci, c) in script.iter().enumerate() {
+        // an unlimited call (real clock): the model gets the number of iterations that actually ran
+        let ran = |b: &u64| -> u64 {
+            if *b != u64::MAX {
+                return *b;
+            }
+            let o = &outs[ci];
+            match (&o.resp, c) {
+                (Resp::Err(0), _) => o.ticks.saturating_sub(1),
+                (_, Call::Construct(_)) => o.ticks.saturating_sub(1),
+                _ => o.ticks.max(1).min(1_000_000),
+            }
+        };
         match c {
             Call::Setup(p, v) => {
                 e.n(0);
@@ -483,12 +502,12 @@ pub fn coq_case<S>(
             }
             Call::Solve(b) => {
                 e.n(1);
-                e.n(*b);
+                e.n(ran(b));
                 e.n(0);
             }
             Call::Construct(b) => {
                 e.n(2);
-                e.n(*b);
+                e.n(ran(b));
                 e.n(0);
             }
             Call::SetPd(p) => {
